@@ -409,12 +409,12 @@ PROPERTIES["C07"]["runs"] += [
     dict(pkg="accumulation", files=PIPE_FILES, entry="Harness_P07", quick=dict(params=dict(PAIRS=0)), thorough=dict(params=dict(PAIRS=1)), args=dict(sample_every=7, max_samples=24)),
     dict(pkg="accumulation", files=PIPE_FILES, entry="Harness_P01", name="_total", quick=dict(params=dict(STMTS=2, COMPOUND=5)), thorough=dict(params=dict(STMTS=2, COMPOUND=6)), args=dict(sample_every=97, max_samples=12)),
 ]
-PROPERTIES["C07"]["explanation"] += (" Totality at source level: " + PIPE_EXPL + "P07 assembles a function body from one (thorough: two) of 50 statement templates that cover the node kinds a control-flow graph can carry "
+PROPERTIES["C07"]["explanation"] += (" Totality at source level: " + PIPE_EXPL + "P07 assembles a function body from one (thorough: two) of 75 statement templates that cover the node kinds a control-flow graph can carry "
     "(type assertions and function literals as conditions or switch tags, range-over-func with literal/defined/aliased yield types and 0-2 variables, range-over-int, labelled break/continue/goto, tagged and tagless "
     "switches with fallthrough and negated cases, type switches, select, conversions on the left of an assignment, parenthesised multi-value calls, generics, closures, defer/recover, channel operations) and requires "
     "that nothing internal fails; P01's programs carry the same obligation (P01.A4).")
-PROPERTIES["C07"]["bounds"]["quick"] += "; source level: each of the 50 statement templates alone, and the 742 two-statement programs of the C01 grammar"
-PROPERTIES["C07"]["bounds"]["thorough"] = PROPERTIES["C07"]["bounds"]["quick"] + "; all 2500 ordered pairs of templates"
+PROPERTIES["C07"]["bounds"]["quick"] += "; source level: each of the 75 statement templates alone, and the 742 two-statement programs of the C01 grammar"
+PROPERTIES["C07"]["bounds"]["thorough"] = PROPERTIES["C07"]["bounds"]["quick"] + "; all 5625 ordered pairs of templates"
 PROPERTIES["C07"]["outside"] = ["the universal statement (every type-correct package): only the stated template family and grammars are decided; P07 has no symbolic scalars (template enumeration executed by symx and natively)",
     "the fixpoint round bound on functions with more than 128 simultaneously rotating variables (known NilAway limitation reported by a seeding sub-agent, not reproduced by this family)",
     "_maxFuncSizeInCFGBlocks", "goroutine panics inside function.run (C16)"] + PIPE_OUTSIDE
